@@ -342,6 +342,77 @@ func pendingSubscribeScenario() *explore.Scenario {
 	}}
 }
 
+// One SubscriberDecorator value used for several subscribers (what Router.AddSubscriberDecorators does with every
+// handler) or twice in one stack: each decorated subscriber is its own object; closing one leaves the other delivering,
+// and closing the other afterwards works like the first time.
+func sharedDecoratorValueScenario() *explore.Scenario {
+	return &explore.Scenario{Name: "subscriber-stack/one-decorator-value-two-subscribers", C: 0, Body: func() {
+		dec := message.MessageTransformSubscriberDecorator(func(m *message.Message) { m.Metadata.Set("seen", m.Metadata.Get("seen")+"x") })
+		shape := vs.Choose(2, 0, "two subscribers | twice in one stack")
+		innerA := hx.NewScriptSub("innerA", map[string][]*message.Message{"t": {hx.Msg("a0")}})
+		innerB := hx.NewScriptSub("innerB", map[string][]*message.Message{"t": {hx.Msg("b0"), hx.Msg("b1")}})
+		subB, err := dec(innerB)
+		if err != nil {
+			vs.Fail("setup", "%v", err)
+			return
+		}
+		var subA message.Subscriber
+		wantSeenB := "x"
+		if shape == 0 {
+			subA, err = dec(innerA)
+		} else {
+			subA, err = dec(innerA) // closed first, as in the other shape
+			if err == nil {
+				subB, err = dec(subB) // and B carries the decorator twice
+				wantSeenB = "xx"
+			}
+		}
+		if err != nil {
+			vs.Fail("setup", "%v", err)
+			return
+		}
+		chA, errA := subA.Subscribe(context.Background(), "t")
+		chB, errB := subB.Subscribe(context.Background(), "t")
+		if errA != nil || errB != nil {
+			vs.Fail("subscribe-error", "%v %v", errA, errB)
+			return
+		}
+		m := <-chA
+		m.Ack()
+		closeNoPanic := func(name string, s message.Subscriber) {
+			defer func() {
+				if r := recover(); r != nil {
+					vs.Fail("close-passes-through", "Close of subscriber %s panicked: %v", name, r)
+				}
+			}()
+			if err := s.Close(); err != nil {
+				vs.Fail("close-passes-through", "Close of subscriber %s: %v", name, err)
+			}
+		}
+		closeNoPanic("A", subA)
+		// B is untouched by A's Close: with a reader waiting, every message comes through
+		var gotB []string
+		done := make(chan struct{})
+		go func() {
+			defer close(done)
+			for m := range chB {
+				gotB = append(gotB, m.UUID+":"+m.Metadata.Get("seen"))
+				m.Ack()
+			}
+		}()
+		vs.Quiesce()
+		if want := fmt.Sprintf("[b0:%s b1:%s]", wantSeenB, wantSeenB); fmt.Sprint(gotB) != want {
+			vs.Fail("transparent", "shape %d: after subscriber A (same decorator value) was closed, subscriber B delivered %v, expected %s", shape, gotB, want)
+		}
+		closeNoPanic("B", subB)
+		<-done
+		if innerA.CloseCalls != 1 || innerB.CloseCalls != 1 {
+			vs.Fail("close-passes-through", "shape %d: inner Close calls A=%d B=%d", shape, innerA.CloseCalls, innerB.CloseCalls)
+		}
+		vs.Note("shape %d ok", shape)
+	}}
+}
+
 // ---- (2b) the same message object travels through both metrics decorators ----------------------------------------
 //
 // A consumer republishes the very message it received (a pass-through handler does), or hands a message it just
@@ -650,6 +721,7 @@ func init() {
 	})
 	add(reg.Thorough, 20, func(t reg.Tier) *explore.Scenario { return subStackScenarioX(2, 0, []string{"transform", "metrics2"}) })
 	add(reg.Quick, 5, func(t reg.Tier) *explore.Scenario { return pendingSubscribeScenario() })
+	add(reg.Quick, 5, func(t reg.Tier) *explore.Scenario { return sharedDecoratorValueScenario() })
 	add(reg.Quick, 5, func(t reg.Tier) *explore.Scenario { return delayScenario() })
 	add(reg.Quick, 10, func(t reg.Tier) *explore.Scenario { return handlerMetricsScenario(-1) })
 }
